@@ -548,21 +548,23 @@ func (ps *PruningStorer) SetEpochForPutOperation(epoch uint32) {
 	ps.lock.Unlock()
 }
 
-// Remove removes the data associated to the given key from both cache and persistence medium
+// Remove removes the data associated to the given key from the cache and from all the active persisters,
+// as the key might have been saved in an older epoch that is still active
 func (ps *PruningStorer) Remove(key []byte) error {
-	var err error
 	ps.cacher.Remove(key)
 
 	ps.lock.RLock()
 	defer ps.lock.RUnlock()
+
+	var lastErr error
 	for _, pd := range ps.activePersisters {
-		err = pd.persister.Remove(key)
-		if err == nil {
-			return nil
+		err := pd.getPersister().Remove(key)
+		if err != nil {
+			lastErr = err
 		}
 	}
 
-	return err
+	return lastErr
 }
 
 // ClearCache cleans up the entire cache
